@@ -277,3 +277,337 @@ Proof.
 Qed.
 End OneLink.
 End Links.
+
+(* ------------------------------------------------------------------ "$$package_export" / "$$file_export" *)
+Lemma adjust_key key cb pre r :
+  span_while is_sigil (bs "$$" ++ key) = (bs "$$", key) ->
+  span_while (fun ch => negb (Ascii.eqb ch sl)) key = (key, []) ->
+  cb key = Some pre -> pathjoin [pre; []] = pre -> pre = sl :: r ->
+  adjust_prefixed (bs "$$" ++ key) cb = Some pre.
+Proof.
+  intros S1 S2 H1 H2 H3. unfold adjust_prefixed. rewrite S1, S2.
+  change (bs "$$" ++ key) with (nb 36 :: nb 36 :: key). cbv iota beta.
+  assert (S3 : beq (bs "$$") (bs "$$") = true) by reflexivity. rewrite S3, H1, H2.
+  change (bs "$$") with [nb 36; nb 36]. cbv iota. rewrite H3, Ascii.eqb_refl. reflexivity.
+Qed.
+Lemma adjust_kP cb pre r :
+  cb (bs "package_export") = Some pre -> pathjoin [pre; []] = pre -> pre = sl :: r ->
+  adjust_prefixed kP cb = Some pre.
+Proof. apply adjust_key; vm_compute; reflexivity. Qed.
+Lemma adjust_kG cb pre r :
+  cb (bs "file_export") = Some pre -> pathjoin [pre; []] = pre -> pre = sl :: r ->
+  adjust_prefixed kG cb = Some pre.
+Proof. apply adjust_key; vm_compute; reflexivity. Qed.
+
+Lemma kG_not_kP : beq kG kP = false.
+Proof. vm_compute. reflexivity. Qed.
+
+Lemma steps_mono (R R' : fsT -> fsT -> Prop) {A} (m : M A) :
+  (forall f f', R f f' -> R' f f') -> steps R m -> steps R' m.
+Proof. intros H Hm s. apply H, Hm. Qed.
+
+Section Chain.
+Variable c : cfgT.
+Variable e : env.
+Hypothesis He : plain e.
+Notation Pn := (C16.pkg_link c).
+Notation Gn := (C16.gen_link c).
+Definition autoP (n : bytes) : bytes := pathjoin [layer_path c n; c_binpkg c].
+Definition autoG (n : bytes) : bytes := pathjoin [layer_path c n; c_gen c].
+Definition names_ok (n : bytes) : Prop := legal_name n = true /\ n <> [].
+Definition lks (n : bytes) : list bytes := [Pn n; Gn n].
+Definition aus (n : bytes) : list bytes := [autoP n; autoG n].
+
+(* the configuration facts (discharged in C16P from decidable checks) *)
+Hypothesis H_dir : forall n, names_ok n -> forall T, In T (lks n) ->
+  exists cs, Forall PathM.plain cs /\ pathdir T = slcat cs.
+Hypothesis H_abs : forall n, names_ok n -> forall T, In T (lks n) ->
+  pathjoin [T; []] = T /\ exists r, T = sl :: r.
+Hypothesis H_PG : forall n, names_ok n ->
+  at_or_under (Pn n) (Gn n) = false /\ at_or_under (Gn n) (Pn n) = false.
+Hypothesis H_diff : forall n m, names_ok n -> names_ok m -> n <> m ->
+  forall T, In T (lks m) -> forall T', In T' (lks n) -> at_or_under T T' = false.
+Hypothesis H_auto : forall n m, names_ok n -> names_ok m ->
+  forall T, In T (lks m) -> forall A, In A (aus n) ->
+    at_or_under T A = false /\ at_or_under A (pathdir T) = false.
+
+Section Layer.
+Variable x : layer.
+Hypothesis Hname : names_ok (l_name x).
+Hypothesis Hpath : l_path x = layer_path c (l_name x).
+Hypothesis Hsimple : exports_simple x = true.
+Notation n := (l_name x).
+Notation ap := (pathjoin [l_path x; c_binpkg c]).
+Notation ag := (pathjoin [l_path x; c_gen c]).
+
+Definition Fx (nm : nmount) : xmount :=
+  MkX (if beq (nm_mount nm) kP then Pn n else Gn n)
+      (pathjoin [l_path x; c_buildroot c; nm_source nm]) (nm_fstype nm) (nm_mount nm).
+Definition es : list xmount := map Fx (l_exports x).
+Definition targets : list bytes := map x_mount es.
+
+Lemma ap_auto : ap = autoP n.
+Proof. unfold autoP. rewrite Hpath. reflexivity. Qed.
+Lemma ag_auto : ag = autoG n.
+Proof. unfold autoG. rewrite Hpath. reflexivity. Qed.
+
+Lemma PG_neq : Pn n <> Gn n.
+Proof.
+  intros E0. destruct (H_PG n Hname) as [H _]. rewrite <- E0, at_or_under_refl in H. discriminate.
+Qed.
+
+Lemma keys : forall nm, In nm (l_exports x) -> nm_mount nm = kP \/ nm_mount nm = kG.
+Proof.
+  unfold exports_simple in Hsimple. apply andb_true_iff in Hsimple as [H _].
+  rewrite forallb_forall in H. intros nm Hnm. specialize (H nm Hnm).
+  apply orb_true_iff in H as [H|H]; apply beq_eq in H; auto.
+Qed.
+Lemma exports_nodup : NoDup (map nm_mount (l_exports x)).
+Proof.
+  unfold exports_simple in Hsimple. apply andb_true_iff in Hsimple as [_ H].
+  apply nodup_paths_NoDup, H.
+Qed.
+
+Lemma expand_simple : expand_config_exports c x = Some es.
+Proof.
+  unfold expand_config_exports, es. pose proof keys as Hk. revert Hk.
+  generalize (l_exports x) as l. induction l as [|nm r IH]; intros Hk; [reflexivity|].
+  cbn [map_opt map]. rewrite IH by (intros nm' H'; apply Hk; now right).
+  destruct (H_abs n Hname (Pn n) (or_introl eq_refl)) as [HP1 [rP HP2]].
+  destruct (H_abs n Hname (Gn n) (or_intror (or_introl eq_refl))) as [HG1 [rG HG2]].
+  destruct (Hk nm (or_introl eq_refl)) as [Ek|Ek]; unfold Fx; rewrite Ek.
+  - rewrite (adjust_kP _ (Pn n) rP); [rewrite beq_refl; reflexivity|reflexivity|exact HP1|exact HP2].
+  - rewrite (adjust_kG _ (Gn n) rG); [rewrite kG_not_kP; reflexivity|reflexivity|exact HG1|exact HG2].
+Qed.
+
+Lemma es_targets xm : In xm es -> x_mount xm = Pn n \/ x_mount xm = Gn n.
+Proof.
+  unfold es. intros H. apply in_map_iff in H as (nm & <- & _). unfold Fx. cbn [x_mount].
+  destruct (beq (nm_mount nm) kP); auto.
+Qed.
+Lemma es_in_lks xm : In xm es -> In (x_mount xm) (lks n).
+Proof. intros H. destruct (es_targets xm H) as [-> | ->]; [now left|right; now left]. Qed.
+
+Lemma es_inj xm ym : In xm es -> In ym es -> x_mount xm = x_mount ym -> xm = ym.
+Proof.
+  unfold es. intros Hx Hy E0. apply in_map_iff in Hx as (a & <- & Ha). apply in_map_iff in Hy as (b & <- & Hb).
+  f_equal. apply (NoDup_map_inj nm_mount _ exports_nodup a b Ha Hb).
+  unfold Fx in E0. cbn [x_mount] in E0.
+  destruct (keys a Ha) as [Ea|Ea], (keys b Hb) as [Eb|Eb]; rewrite Ea, Eb in *; try reflexivity; exfalso.
+  - rewrite beq_refl, kG_not_kP in E0. exact (PG_neq E0).
+  - rewrite beq_refl, kG_not_kP in E0. exact (PG_neq (eq_sym E0)).
+Qed.
+
+(* the spec's explicit_target against the expanded directives *)
+Lemma explicit_P_some t : C16.explicit_target c x (bs "package_export") = Some t ->
+  exists xm, In xm es /\ x_mount xm = Pn n /\ x_source xm = t.
+Proof.
+  unfold C16.explicit_target. fold kP.
+  destruct (filter (fun nm => beq (nm_mount nm) kP) (l_exports x)) as [|nm r] eqn:Ef; [discriminate|].
+  intros H. injection H as <-.
+  assert (Hin : In nm (filter (fun nm => beq (nm_mount nm) kP) (l_exports x))) by (rewrite Ef; now left).
+  apply filter_In in Hin as [Hin Hk]. exists (Fx nm). split; [apply in_map, Hin|].
+  unfold Fx. cbn [x_mount x_source]. rewrite Hk. auto.
+Qed.
+Lemma explicit_P_none : C16.explicit_target c x (bs "package_export") = None -> ~ In (Pn n) targets.
+Proof.
+  unfold C16.explicit_target. fold kP.
+  destruct (filter (fun nm => beq (nm_mount nm) kP) (l_exports x)) as [|nm r] eqn:Ef; [|discriminate].
+  intros _ Hin. unfold targets, es in Hin. rewrite map_map in Hin. apply in_map_iff in Hin as (nm & Hm & Hnm).
+  unfold Fx in Hm. cbn [x_mount] in Hm. destruct (beq (nm_mount nm) kP) eqn:Ek.
+  - assert (Hf : In nm (filter (fun nm => beq (nm_mount nm) kP) (l_exports x))) by (apply filter_In; auto).
+    rewrite Ef in Hf. destruct Hf.
+  - exact (PG_neq (eq_sym Hm)).
+Qed.
+Lemma explicit_G_some t : C16.explicit_target c x (bs "file_export") = Some t ->
+  exists xm, In xm es /\ x_mount xm = Gn n /\ x_source xm = t.
+Proof.
+  unfold C16.explicit_target. fold kG.
+  destruct (filter (fun nm => beq (nm_mount nm) kG) (l_exports x)) as [|nm r] eqn:Ef; [discriminate|].
+  intros H. injection H as <-.
+  assert (Hin : In nm (filter (fun nm => beq (nm_mount nm) kG) (l_exports x))) by (rewrite Ef; now left).
+  apply filter_In in Hin as [Hin Hk]. exists (Fx nm). split; [apply in_map, Hin|].
+  unfold Fx. cbn [x_mount x_source]. apply beq_eq in Hk. rewrite Hk, kG_not_kP. auto.
+Qed.
+Lemma explicit_G_none : C16.explicit_target c x (bs "file_export") = None -> ~ In (Gn n) targets.
+Proof.
+  unfold C16.explicit_target. fold kG.
+  destruct (filter (fun nm => beq (nm_mount nm) kG) (l_exports x)) as [|nm r] eqn:Ef; [|discriminate].
+  intros _ Hin. unfold targets, es in Hin. rewrite map_map in Hin. apply in_map_iff in Hin as (nm & Hm & Hnm).
+  unfold Fx in Hm. cbn [x_mount] in Hm. destruct (keys nm Hnm) as [Ek|Ek].
+  - rewrite Ek, beq_refl in Hm. exact (PG_neq Hm).
+  - assert (Hf : In nm (filter (fun nm => beq (nm_mount nm) kG) (l_exports x))).
+    { apply filter_In. split; [exact Hnm|]. rewrite Ek. apply beq_refl. }
+    rewrite Ef in Hf. destruct Hf.
+Qed.
+
+(* phase 1: every explicit directive ends as a symlink to its source *)
+Lemma phase1_post :
+  hoareR (fun _ => True) (mapM_ (fun xm => make_symlink_in_dir e (x_source xm) (x_mount xm)) es)
+         (fun _ s => forall xm, In xm es -> fs_get (fsof s) (x_mount xm) = Some (Link (x_source xm))).
+Proof.
+  apply (hoare_mapM_each (fun xm s => fs_get (fsof s) (x_mount xm) = Some (Link (x_source xm)))).
+  - intros xm Hxm. destruct (H_dir n Hname _ (es_in_lks xm Hxm)) as (cs & Hcs & Hd).
+    apply (msid_post e He).
+  - intros xm ym Hxm Hym. destruct (H_dir n Hname _ (es_in_lks ym Hym)) as (cs & Hcs & Hd).
+    destruct (beq (x_mount xm) (x_mount ym)) eqn:Eb.
+    + apply beq_eq in Eb. rewrite (es_inj xm ym Hxm Hym Eb).
+      eapply hoare_conseq; [apply (msid_post e He)|cbv beta; auto|cbv beta; auto].
+    + apply (hoare_steps (FP [x_mount ym]) _
+               (fun g => fs_get g (x_mount xm) = Some (Link (x_source xm)))).
+      * eapply stepsFP_msid; eauto.
+      * intros f f' Hfp Hg. apply (FP_get _ _ _ _ _ Hfp); [|exact Hg]. intros t [<-|[]].
+        apply beq_false in Eb. destruct (H_PG n Hname) as [PG GP].
+        destruct (es_targets xm Hxm) as [Ex|Ex], (es_targets ym Hym) as [Ey|Ey]; rewrite Ex, Ey in *;
+          try congruence; assumption.
+Qed.
+
+Lemma stepsFP_phase1 :
+  steps (FP (lks n)) (mapM_ (fun xm => make_symlink_in_dir e (x_source xm) (x_mount xm)) es).
+Proof.
+  apply (steps_mapM_ _ (FP_refl (lks n)) (FP_trans (lks n))). intros xm Hxm.
+  destruct (H_dir n Hname _ (es_in_lks xm Hxm)) as (cs & Hcs & Hd).
+  apply (steps_mono (FP [x_mount xm])); [|eapply stepsFP_msid; eauto].
+  intros f f'. apply FP_mono. intros t [<-|[]]. apply es_in_lks, Hxm.
+Qed.
+
+(* phase 2, one step, seen from a link T *)
+Lemma auto_self_ret T a : In T targets -> auto_step e targets (T, a) = ret tt.
+Proof. intros H. unfold auto_step. cbn [fst]. apply memb_in in H. rewrite H. reflexivity. Qed.
+
+Lemma stepsFP_auto T a : In T (lks n) -> steps (FP [T]) (auto_step e targets (T, a)).
+Proof.
+  intros HT. destruct (H_dir n Hname T HT) as (cs & Hcs & Hd).
+  eapply stepsFP_auto_step; eauto.
+Qed.
+
+Lemma phase2_unfold :
+  mapM_ (auto_step e targets) (automated_exports c x) =
+  (auto_step e targets (Pn n, ap) ;;; (auto_step e targets (Gn n, ag) ;;; ret tt)).
+Proof. reflexivity. Qed.
+
+Lemma auto_facts T T' : In T (lks n) -> In T' (lks n) -> forall a, In a [ap; ag] ->
+  at_or_under T' a = false /\ at_or_under a (pathdir T') = false.
+Proof.
+  intros _ HT' a Ha. apply (H_auto n n Hname Hname T' HT').
+  rewrite ap_auto, ag_auto in Ha. exact Ha.
+Qed.
+
+Lemma mes_pkg :
+  hoareR (fun _ => True) (make_export_symlinks e c x)
+         (fun _ s => C16.link_ok (fsof s) (Pn n) ap (C16.explicit_target c x (bs "package_export")) = true).
+Proof.
+  rewrite mes_unfold, expand_simple. fold targets. rewrite phase2_unfold.
+  destruct (H_PG n Hname) as [PG GP].
+  assert (HPin : In (Pn n) (lks n)) by now left.
+  assert (HGin : In (Gn n) (lks n)) by (right; now left).
+  destruct (C16.explicit_target c x (bs "package_export")) as [t|] eqn:Eet.
+  - destruct (explicit_P_some t Eet) as (xm & Hxm & Hm & Hs).
+    eapply hoare_bind.
+    { eapply hoare_conseq; [apply phase1_post|cbv beta; auto|].
+      cbv beta. intros u' s H. specialize (H xm Hxm). rewrite Hm, Hs in H. exact H. }
+    intros u. cbv beta. rewrite auto_self_ret by (rewrite <- Hm; apply in_map, Hxm).
+    eapply hoare_bind; [apply hoare_ret|]. intros u0. cbv beta.
+    eapply hoare_bind; [|intros u1; apply hoare_ret'].
+    + apply (hoare_steps (FP [Gn n]) _ (fun g => fs_get g (Pn n) = Some (Link t))); [apply stepsFP_auto, HGin|].
+      intros f f' Hfp Hg. apply (FP_get _ _ _ _ _ Hfp); [|exact Hg]. intros t0 [<-|[]]. exact GP.
+    + cbv beta. intros s Hg. unfold C16.link_ok, lstat. rewrite Hg. apply beq_refl.
+  - pose proof (explicit_P_none Eet) as Hnt.
+    eapply hoare_bind; [apply hoare_true|]. intros u. cbv beta.
+    destruct (H_dir n Hname _ HPin) as (cs & Hcs & Hd).
+    destruct (auto_facts _ _ HPin HPin ap (or_introl eq_refl)) as [A1 A2].
+    destruct (auto_facts _ _ HPin HGin ap (or_introl eq_refl)) as [A3 A4].
+    eapply hoare_bind; [eapply auto_step_post; eauto|].
+    intros u0. cbv beta. eapply hoare_bind; [|intros u1; apply hoare_ret].
+    apply (hoare_steps (FP [Gn n]) _ (fun g => C16.link_ok g (Pn n) ap None = true)); [apply stepsFP_auto, HGin|].
+    intros f f' Hfp. apply (link_ok_FP _ _ _ _ _ _ Hfp); intros t0 [<-|[]]; assumption.
+Qed.
+
+Lemma mes_gen :
+  hoareR (fun _ => True) (make_export_symlinks e c x)
+         (fun _ s => C16.link_ok (fsof s) (Gn n) ag (C16.explicit_target c x (bs "file_export")) = true).
+Proof.
+  rewrite mes_unfold, expand_simple. fold targets. rewrite phase2_unfold.
+  destruct (H_PG n Hname) as [PG GP].
+  assert (HPin : In (Pn n) (lks n)) by now left.
+  assert (HGin : In (Gn n) (lks n)) by (right; now left).
+  destruct (C16.explicit_target c x (bs "file_export")) as [t|] eqn:Eet.
+  - destruct (explicit_G_some t Eet) as (xm & Hxm & Hm & Hs).
+    eapply hoare_bind.
+    { eapply hoare_conseq; [apply phase1_post|cbv beta; auto|].
+      cbv beta. intros u' s H. specialize (H xm Hxm). rewrite Hm, Hs in H. exact H. }
+    intros u. cbv beta.
+    eapply hoare_bind.
+    { apply (hoare_steps (FP [Pn n]) _ (fun g => fs_get g (Gn n) = Some (Link t))); [apply stepsFP_auto, HPin|].
+      intros f f' Hfp Hg. apply (FP_get _ _ _ _ _ Hfp); [|exact Hg]. intros t0 [<-|[]]. exact PG. }
+    intros u0. cbv beta. rewrite auto_self_ret by (rewrite <- Hm; apply in_map, Hxm).
+    eapply hoare_bind; [apply hoare_ret|]. intros u1. cbv beta. apply hoare_ret'.
+    intros s Hg. unfold C16.link_ok, lstat. rewrite Hg. apply beq_refl.
+  - pose proof (explicit_G_none Eet) as Hnt.
+    eapply hoare_bind; [apply hoare_true|]. intros u. cbv beta.
+    eapply hoare_bind; [apply hoare_true|]. intros u0. cbv beta.
+    destruct (H_dir n Hname _ HGin) as (cs & Hcs & Hd).
+    destruct (auto_facts _ _ HGin HGin ag (or_intror (or_introl eq_refl))) as [A1 A2].
+    eapply hoare_bind; [eapply auto_step_post; eauto|].
+    intros u1. cbv beta. apply hoare_ret.
+Qed.
+
+Lemma mes_links : hoareR (fun _ => True) (make_export_symlinks e c x) (fun _ s => links_ok c x (fsof s)).
+Proof.
+  eapply hoare_conseq; [apply (hoare_and _ _ _ _ _ mes_pkg mes_gen)|cbv beta; auto|].
+  cbv beta. intros _ s H. exact H.
+Qed.
+
+Lemma stepsFP_mes : steps (FP (lks n)) (make_export_symlinks e c x).
+Proof.
+  rewrite mes_unfold, expand_simple. fold targets. rewrite phase2_unfold.
+  assert (HPin : In (Pn n) (lks n)) by now left.
+  assert (HGin : In (Gn n) (lks n)) by (right; now left).
+  apply (steps_bind _ (FP_trans (lks n))); [apply stepsFP_phase1|intros _].
+  apply (steps_bind _ (FP_trans (lks n))); [|intros _].
+  { apply (steps_mono (FP [Pn n])); [|apply stepsFP_auto, HPin].
+    intros f f'. apply FP_mono. intros t [<-|[]]. exact HPin. }
+  apply (steps_bind _ (FP_trans (lks n))); [|intros _; apply steps_ret, FP_refl].
+  apply (steps_mono (FP [Gn n])); [|apply stepsFP_auto, HGin].
+  intros f f'. apply FP_mono. intros t [<-|[]]. exact HGin.
+Qed.
+End Layer.
+
+(* the links of layer x survive the link-making of a layer with another name *)
+Lemma links_FP_other x y f f' :
+  names_ok (l_name x) -> l_path x = layer_path c (l_name x) -> names_ok (l_name y) ->
+  l_name x <> l_name y -> FP (lks (l_name y)) f f' -> links_ok c x f -> links_ok c x f'.
+Proof.
+  intros Hx Hpx Hy Hne Hfp [H1 H2].
+  assert (HPin : In (Pn (l_name x)) (lks (l_name x))) by now left.
+  assert (HGin : In (Gn (l_name x)) (lks (l_name x))) by (right; now left).
+  split.
+  - apply (link_ok_FP _ _ _ _ _ _ Hfp); [| | |exact H1]; intros t Ht.
+    + apply (H_diff (l_name x) (l_name y) Hx Hy Hne t Ht _ HPin).
+    + apply (H_auto (l_name x) (l_name y) Hx Hy t Ht). rewrite (ap_auto x Hpx). now left.
+    + apply (H_auto (l_name x) (l_name y) Hx Hy t Ht). rewrite (ap_auto x Hpx). now left.
+  - apply (link_ok_FP _ _ _ _ _ _ Hfp); [| | |exact H2]; intros t Ht.
+    + apply (H_diff (l_name x) (l_name y) Hx Hy Hne t Ht _ HGin).
+    + apply (H_auto (l_name x) (l_name y) Hx Hy t Ht). rewrite (ag_auto x Hpx). right. now left.
+    + apply (H_auto (l_name x) (l_name y) Hx Hy t Ht). rewrite (ag_auto x Hpx). right. now left.
+Qed.
+
+Definition chain_layer_ok (m : lmap) (x : layer) : Prop :=
+  lm_get m (l_name x) = Some x /\ names_ok (l_name x) /\ l_path x = layer_path c (l_name x)
+  /\ exports_simple x = true.
+
+Lemma chain_links m ch : (forall x, In x ch -> chain_layer_ok m x) ->
+  hoareR (fun _ => True) (mapM_ (fun x => make_export_symlinks e c x) ch)
+         (fun _ s => forall x, In x ch -> links_ok c x (fsof s)).
+Proof.
+  intros Hch. apply (hoare_mapM_each (fun x s => links_ok c x (fsof s))).
+  - intros x Hx. destruct (Hch x Hx) as (_ & H1 & H2 & H3). apply mes_links; assumption.
+  - intros x y Hx Hy. destruct (Hch x Hx) as (Gx & X1 & X2 & X3). destruct (Hch y Hy) as (Gy & Y1 & Y2 & Y3).
+    destruct (beq (l_name x) (l_name y)) eqn:Eb.
+    + apply beq_eq in Eb. rewrite Eb in Gx. rewrite Gy in Gx. injection Gx as <-.
+      eapply hoare_conseq; [apply (mes_links y Y1 Y2 Y3)|cbv beta; auto|cbv beta; auto].
+    + apply beq_false in Eb.
+      apply (hoare_steps (FP (lks (l_name y))) _ (links_ok c x)); [apply stepsFP_mes; assumption|].
+      intros f f'. apply links_FP_other; assumption.
+Qed.
+End Chain.
